@@ -181,3 +181,143 @@ Proof.
   change NErr with (pt_time (NErr, NErr, CName "")) at 1. rewrite map_nth. cbn [hd map].
   rewrite (nth_indep (s0 :: sr) _ s0) by exact Hk. reflexivity.
 Qed.
+
+(* ====================================================================================
+   Deepening round: the sort of xyc is a sort; the breakpoints of xyc / pairs are the sorted points. *)
+From Coq Require Import Sorting.Sorted.
+Local Transparent nadd nmul nsub.
+
+Definition pt_level (p : pt) : num := snd (fst p).
+Definition le_time (p q : pt) : Prop := toQ (pt_time p) <= toQ (pt_time q).
+
+Lemma nlt_ok a b : ok a -> ok b -> nlt a b = Qlt_bool (toQ a) (toQ b).
+Proof. destruct a, b; unfold ok; simpl; intros; try discriminate; reflexivity. Qed.
+Lemma Qlt_bool_iff x y : Qlt_bool x y = true <-> x < y.
+Proof.
+  unfold Qlt_bool. rewrite negb_true_iff. split.
+  - intros H. apply Qnot_le_lt. intros Hle. apply Qle_bool_iff in Hle. congruence.
+  - intros H. destruct (Qle_bool y x) eqn:E; [|reflexivity]. apply Qle_bool_iff in E. lra.
+Qed.
+
+Lemma insert_pt_hd p q r : le_time q p -> HdRel le_time q r -> HdRel le_time q (insert_pt p r).
+Proof.
+  intros Hqp Hr. destruct r as [|x r']; simpl; [constructor; exact Hqp|].
+  destruct (nlt (pt_time p) (pt_time x)); constructor; [exact Hqp|].
+  inversion Hr; assumption.
+Qed.
+
+Lemma insert_pt_sorted p l : ok (pt_time p) -> Forall (fun q => ok (pt_time q)) l ->
+  Sorted le_time l -> Sorted le_time (insert_pt p l).
+Proof.
+  intros Hp Hok Hs. induction l as [|q r IH]; simpl; [repeat constructor|].
+  inversion Hok as [|? ? Hq Hr]; subst. inversion Hs as [|? ? Hsr Hhd]; subst.
+  rewrite nlt_ok by assumption.
+  destruct (Qlt_bool (toQ (pt_time p)) (toQ (pt_time q))) eqn:E.
+  - apply Qlt_bool_iff in E. constructor; [exact Hs|]. constructor. unfold le_time. lra.
+  - constructor; [apply IH; assumption|]. apply insert_pt_hd; [|exact Hhd].
+    unfold le_time. destruct (Qlt_le_dec (toQ (pt_time p)) (toQ (pt_time q))) as [Hlt|Hle]; [|exact Hle].
+    apply Qlt_bool_iff in Hlt. congruence.
+Qed.
+
+Lemma insert_pt_ok p l : ok (pt_time p) -> Forall (fun q => ok (pt_time q)) l ->
+  Forall (fun q => ok (pt_time q)) (insert_pt p l).
+Proof.
+  intros Hp Hl. eapply Permutation_Forall; [apply insert_pt_perm|]. constructor; assumption.
+Qed.
+
+(* the points come out in non-decreasing time order *)
+Lemma sort_pts_sorted l : Forall (fun q => ok (pt_time q)) l -> Sorted le_time (sort_pts l).
+Proof.
+  unfold sort_pts. intros Hl.
+  assert (H : forall acc, Forall (fun q => ok (pt_time q)) acc -> Sorted le_time acc ->
+                          Sorted le_time (fold_left (fun acc p => insert_pt p acc) l acc)).
+  { induction l as [|p r IH]; intros acc Hacc Hs; [exact Hs|]. simpl.
+    inversion Hl as [|? ? Hp Hr]; subst.
+    apply IH; [exact Hr|apply insert_pt_ok; assumption|apply insert_pt_sorted; assumption]. }
+  apply H; constructor.
+Qed.
+
+Lemma Forall2_map_seq {A B C} (P : B -> C -> Prop) (l : list A) (d : A) : forall (f : nat -> B) (g : A -> C),
+  (forall k, (k < length l)%nat -> P (f k) (g (nth k l d))) ->
+  Forall2 P (map f (seq 0 (length l))) (map g l).
+Proof.
+  induction l as [|a r IH]; intros f g H; simpl; [constructor|].
+  constructor; [apply (H 0%nat); simpl; lia|].
+  rewrite <- seq_shift, map_map. apply IH. intros k Hk. apply (H (S k)). simpl. lia.
+Qed.
+
+(* xyc: the breakpoints ARE the points in time order, times measured from the first point *)
+Lemma xyc_breakpoints pts s0 sr :
+  sort_pts pts = s0 :: sr -> Forall (fun q => ok (pt_time q)) pts ->
+  let s := s0 :: sr in
+  exists e, env_xyc pts = Ok e
+  /\ Permutation pts s /\ Sorted le_time s
+  /\ bp_eq (breakpoints e) (map (fun p => (toQ (pt_time p) - toQ (pt_time s0), toQ (pt_level p))) s)
+  /\ offset e = Some (pt_time s0) /\ curves e = removelast (map snd s)
+  /\ release e = None /\ loop e = None.
+Proof.
+  intros Hs Hok s. destruct (xyc_bp pts s0 sr Hs) as (e & He & Hperm & Hlv & Hoff & Hcv & Hrel & Hlp & Hbt).
+  exists e. split; [exact He|]. split; [exact Hperm|].
+  split; [subst s; rewrite <- Hs; apply sort_pts_sorted; exact Hok|].
+  split; [|auto].
+  assert (Hoks : Forall ok (map pt_time s)).
+  { apply Forall_map. eapply Permutation_Forall; [exact Hperm|exact Hok]. }
+  unfold bp_eq, breakpoints. rewrite Hlv, map_length.
+  apply (Forall2_map_seq _ s s0). intros k Hk. cbn [fst snd]. split.
+  - apply Hbt; assumption.
+  - unfold level_at. rewrite Hlv. change NErr with ((fun p : pt => snd (fst p)) (NErr, NErr, CName "")).
+    rewrite map_nth. unfold pt_level. rewrite (nth_indep s _ s0) by exact Hk. reflexivity.
+Qed.
+
+(* pairs: attaches 'lin', one curve, or the i-th curve to the i-th pair and calls xyc *)
+Definition attach (ps : list (num * num)) (c : pcurves) : option (list pt) :=
+  match c with
+  | PNone => Some (map (fun p => (fst p, snd p, CName "lin")) ps)
+  | PScalar c => Some (map (fun p => (fst p, snd p, c)) ps)
+  | PList l => if (length ps =? length l)%nat
+               then Some (map (fun pc => (fst (fst pc), snd (fst pc), snd pc)) (combine ps l)) else None
+  end.
+Definition strip (p : pt) : num * num := (pt_time p, pt_level p).
+
+Lemma strip_combine ps : forall l, length ps = length l ->
+  map strip (map (fun pc : num * num * curve => (fst (fst pc), snd (fst pc), snd pc)) (combine ps l)) = ps.
+Proof.
+  induction ps as [|[a b] r IH]; intros l Hl; destruct l; simpl in *; try discriminate; [reflexivity|].
+  f_equal. apply IH. lia.
+Qed.
+
+Lemma pairs_is_xyc ps c :
+  match attach ps c with
+  | Some pts => env_pairs ps c = env_xyc pts /\ map strip pts = ps
+                /\ (forall l, c = PList l -> map snd pts = l)
+  | None => env_pairs ps c = Err ValueError
+  end.
+Proof.
+  destruct c as [|c|l]; simpl.
+  - split; [reflexivity|]. split; [|discriminate]. rewrite map_map. unfold strip, pt_time, pt_level. simpl.
+    rewrite <- (map_id ps) at 2. apply map_ext. intros [a b]. reflexivity.
+  - split; [reflexivity|]. split; [|discriminate]. rewrite map_map. unfold strip, pt_time, pt_level. simpl.
+    rewrite <- (map_id ps) at 2. apply map_ext. intros [a b]. reflexivity.
+  - destruct (length ps =? length l)%nat eqn:E; simpl; [|reflexivity].
+    apply Nat.eqb_eq in E. split; [reflexivity|]. split; [apply strip_combine; exact E|].
+    intros l' Hl'. inversion Hl'; subst l'. rewrite map_map. simpl.
+    clear -E. revert l E. induction ps as [|p r IH]; intros l E; destruct l; simpl in *; try discriminate; [reflexivity|].
+    f_equal. apply IH. lia.
+Qed.
+
+Lemma pairs_breakpoints ps c pts s0 sr :
+  attach ps c = Some pts -> sort_pts pts = s0 :: sr -> Forall (fun q => ok (fst q)) ps ->
+  let s := s0 :: sr in
+  exists e, env_pairs ps c = Ok e
+  /\ Permutation ps (map strip s) /\ Sorted le_time s
+  /\ bp_eq (breakpoints e) (map (fun p => (toQ (pt_time p) - toQ (pt_time s0), toQ (pt_level p))) s)
+  /\ offset e = Some (pt_time s0) /\ curves e = removelast (map snd s)
+  /\ release e = None /\ loop e = None.
+Proof.
+  intros Ha Hs Hok s. pose proof (pairs_is_xyc ps c) as H. rewrite Ha in H. destruct H as (Heq & Hstrip & _).
+  assert (Hok' : Forall (fun q => ok (pt_time q)) pts).
+  { rewrite <- Hstrip in Hok. rewrite Forall_map in Hok. exact Hok. }
+  destruct (xyc_breakpoints pts s0 sr Hs Hok') as (e & He & Hperm & Hsorted & Hbp & Hrest).
+  exists e. split; [rewrite Heq; exact He|]. split; [rewrite <- Hstrip; apply Permutation_map; exact Hperm|].
+  split; [exact Hsorted|]. split; [exact Hbp|exact Hrest].
+Qed.
